@@ -23,6 +23,7 @@ and the way the path leaves: exit = ('return', term) | ('raise', term) | ('fall'
 from __future__ import annotations
 
 import ast
+import os
 import dataclasses
 import typing as t
 
@@ -871,11 +872,27 @@ def _may_raise(s: ast.stmt) -> bool:
 _cache: dict[tuple, list[Path]] = {}
 
 
+_in_progress: set = set()
+SPLICE_ALL = bool(os.environ.get("TLVERIF_SPLICE_ALL"))
+
+
 def paths_of(prog: Program, func: FuncInfo, outer_env: dict | None = None) -> list[Path]:
     key = (id(prog), func.qualname, id(outer_env) if outer_env else 0, func.bound.qualname if func.bound else None)
     if key not in _cache:
         pe = PathEnumerator(prog, func, outer_env)
-        _cache[key] = _expand_super(prog, func, pe.paths())
+        ps = _expand_super(prog, func, pe.paths())
+        if SPLICE_ALL and key not in _in_progress and len(ps) <= 400:
+            _in_progress.add(key)
+            try:
+                spliced = splice_helpers(prog, ps)
+                if len(spliced) <= 1500:
+                    ps = spliced
+            finally:
+                _in_progress.discard(key)
+        else:
+            if key in _in_progress:
+                return ps  # (a helper that calls itself: its inner occurrence stays a call)
+        _cache[key] = ps
     return _cache[key]
 
 
@@ -954,6 +971,10 @@ def closure_paths(prog: Program, outer: FuncInfo, name: str) -> tuple[FuncInfo, 
     return fi, PathEnumerator(prog, fi, outer_env=closure_env(prog, outer)).paths()
 
 
+def _is_generator(fi: FuncInfo) -> bool:
+    return any(isinstance(n, (ast.Yield, ast.YieldFrom)) for n in ast.walk(fi.node))
+
+
 def splice_helpers(prog: Program, paths: list[Path], _depth: int = 0, cls=None) -> list[Path]:
     """Paths with calls to private, undecorated, multi-statement module-level helpers of the package replaced by the
     helper's own paths: the helper's events (parameters bound to the arguments) precede the caller's, and the call term
@@ -975,7 +996,7 @@ def splice_helpers(prog: Program, paths: list[Path], _depth: int = 0, cls=None) 
                     mn, _, nm = x[1][1].rpartition(".")
                     mod = prog.modules.get(mn)
                     fi = mod.functions.get(nm) if mod else None
-                    if fi is not None and nm.startswith("_") and not nm.startswith("__") and not fi.node.decorator_list and not any(a[0] == "star" for a in x[2]):
+                    if fi is not None and nm.startswith("_") and not nm.startswith("__") and not fi.node.decorator_list and not any(a[0] == "star" for a in x[2]) and not (SPLICE_ALL and (x[1][1] in NOT_INLINED or _is_generator(fi))):
                         call = (x, fi)
                         break
                 # ... and, for the methods of `cls`, its own private undecorated methods called on self
